@@ -39,10 +39,10 @@ def plan(tier, seed):
     ops = gen.FLOAT_OPS
     jobs = []
     if tier == 'quick':
-        flat_ccs = ['gcc-O0', 'clang-O2']
+        flat_ccs = ['gcc-O0-gnu89', 'clang-O2', 'clang-O2-gnu89']
         nrandom, nslices = 3000, 8
         ncases, nexpr = 40, 32
-        expr_ccs = ['gcc-O0', 'clang-O2', 'gcc-O2', 'clang-O0']
+        expr_ccs = ['gcc-O0', 'clang-O2-gnu89', 'gcc-O2-gnu89', 'clang-O0']
     else:
         flat_ccs = ['gcc-O0', 'gcc-O2', 'gcc-O3', 'clang-O0', 'clang-O2', 'clang-O3', 'gcc-O2-gnu89']
         nrandom, nslices = 30000, 16
